@@ -198,7 +198,8 @@ fn check_resource_consumption(context: &CheckerContext) -> GenericResult<()> {
                         .filter_map(|(activity, activity_type)| Some(activity).zip(activity_type.ok()))
                         .filter_map(|(activity, activity_type)| get_demand(context, &activity, &activity_type).ok())
                         .filter_map(|(demand_type, demand_value)| match demand_type {
-                            DemandType::StaticDelivery => Some(demand_value),
+                            // NOTE replacement job takes its delivery part from the resource as well
+                            DemandType::StaticDelivery | DemandType::StaticPickupDelivery => Some(demand_value),
                             _ => None,
                         })
                         .fold(MultiDimLoad::default(), |acc, demand| acc + demand);
